@@ -113,4 +113,13 @@ def Ess.data (s : Ess) : List Nat := s.bytes
 
 def Ess.eq (s : Ess) (buf : List Nat) : Bool := decide (s.bytes = buf)
 
+/-! ## Capture ids of a query step (`capture_ids[MAX_STEP_CAPTURE_COUNT]`, `query_step__add_capture`) -/
+
+/-- `MAX_STEP_CAPTURE_COUNT` of query.c (measured on the real code by the `bits` probe on every run). -/
+def maxStepCaptureCount : Nat := 3
+
+/-- `query_step__add_capture`: the id goes into the first free slot; with all slots taken it is dropped. -/
+def addCapture (caps : List Nat) (c : Nat) : List Nat :=
+  if caps.length < maxStepCaptureCount then caps ++ [c] else caps
+
 end TsVerif.C07
